@@ -1396,6 +1396,7 @@ func worker(sh *ev.Shard, prop string) {
 				w.checkC05(t, c.ID, c.Msg)
 				w.c05Unknowns(t, c.ID, c.Msg)
 				w.c05Decoded(t, c.ID, c.Msg)
+				w.c05NilShapes(t, c.ID, c.Msg)
 			case "C06":
 				w.checkC06(t, c.ID, c.Msg)
 			case "C07":
